@@ -11,6 +11,9 @@ time, hand-over happens at kernel calls only).
 """
 import errno
 import hashlib
+import os
+import sys
+import time as _time
 import heapq
 import socket as _socket
 import sys
@@ -315,6 +318,8 @@ class Proc:
         self.fds: Dict[int, OFD] = {}
         self.alive = True
         self.closes_of_unopened: List[int] = []
+        self.ever: set = set()
+        self.reuse_count = 0
 
     def alloc(self, ofd: OFD) -> int:
         fd = FD_BASE
@@ -323,6 +328,9 @@ class Proc:
             fd += 1
         fds[fd] = ofd
         ofd.refs += 1
+        if fd in self.ever:
+            self.reuse_count += 1
+        self.ever.add(fd)
         return fd
 
 
@@ -519,6 +527,9 @@ class World:
         self.timers: List[Tuple[float, int, Callable[[], None]]] = []
         self.aux_rng = tape.fork_rng('aux')
         self.closes_bad: List[Tuple[int, int, str]] = []
+        self.spin_budget_s = float(os.environ.get('VERIF_SPIN_BUDGET_S', '6'))
+        self.spin_sig = ''
+        self.spin_chain: List[str] = []
         self.gc_closed_labels: List[str] = []
         self.hung = False
         self.deadlock = False
@@ -794,9 +805,43 @@ class World:
     def _switch(self, me: SimThread, nxt: SimThread) -> None:
         self.current = nxt
         nxt._sem.release()
-        me._sem.acquire()
+        if me.is_driver and self.spin_budget_s:
+            # The driver is parked here while the simulated threads pass the baton among themselves.  If no scheduler
+            # step happens for spin_budget_s *real* seconds, the running thread is executing code that never reaches a
+            # kernel call (an endless loop in the code under test): unwind it and end the run as hung.
+            last, t_last = self.steps + self.seq, _time.monotonic()
+            while not me._sem.acquire(timeout=0.2):
+                cur = self.steps + self.seq
+                if cur != last:
+                    last, t_last = cur, _time.monotonic()
+                elif _time.monotonic() - t_last > self.spin_budget_s and not self.spin_sig:
+                    self._kill_spinner()
+        else:
+            me._sem.acquire()
         if self.aborting and not me.is_driver:
             raise SimAbort()
+
+    def _kill_spinner(self) -> None:
+        import ctypes
+        t = self.current
+        if t is None or t.is_driver or t._real is None or t._real.ident is None:
+            return
+        fr = sys._current_frames().get(t._real.ident)
+        sig = 'unknown'
+        chain = []
+        while fr is not None:
+            fn = fr.f_code.co_filename
+            if '/proxy/' in fn and '/sim/' not in fn:
+                chain.append('%s:%s' % (fn.split('/proxy/', 1)[1], fr.f_code.co_name))
+            fr = fr.f_back
+        if chain:
+            # the sampled frame varies within the loop; the file of the innermost proxy frame is stable
+            sig = chain[0].split(':')[0]
+        self.spin_sig = sig
+        self.spin_chain = chain[:6]
+        self.hung = True
+        self.aborting = True
+        ctypes.pythonapi.PyThreadState_SetAsyncExc(ctypes.c_ulong(t._real.ident), ctypes.py_object(SimAbort))
 
     def _thread_exit(self, t: SimThread) -> None:
         t.finished = True
